@@ -232,6 +232,14 @@ def dup_alphabet(cfg):
             A.append(['rm_hard_link', {'udf_path': '/' + nm}])
             A.append(['rm_directory', {'udf_path': '/' + nm}])
     A.append(['add_fp', dict({'content': 'c1', 'iso_path': '/Y.;1'}, **rrn('y0'))])
+    if rr:
+        # the Rock Ridge names of a directory are a namespace too: one Rock Ridge name under several ISO9660 identifiers
+        A.append(['add_fp', {'content': 'c1', 'iso_path': '/P.;1', 'rr_name': 'same'}])
+        A.append(['add_directory', {'iso_path': '/Q', 'rr_name': 'same'}])
+        A.append(['add_symlink', {'symlink_path': '/R.;1', 'rr_symlink_name': 'same', 'rr_path': 't'}])
+        A.append(['add_hard_link', {'iso_old_path': '/Y.;1', 'iso_new_path': '/T.;1', 'rr_name': 'same'}])
+        A.append(['add_eltorito', {'bootfile_path': '/Y.;1', 'bootcatfile': '/U.;1', 'rr_bootcatname': 'same'}])
+        A.append(['rm_file', {'iso_path': '/P.;1'}])
     return A
 
 
